@@ -3,7 +3,7 @@ From BidiVerif Require Import Base ConstsGen TablesGen ModelText RsPrelude Model
 
 (* the TextSource / BidiDataSource instances the generic functions are applied to *)
 Definition ts_of (e : enc) : rs_text_source :=
-  {| rs_char_len := char_len e; rs_chars := t_chars e; rs_char_indices := t_char_indices e;
+  {| rs_char_len := char_len e; rs_text_len := t_len e; rs_chars := t_chars e; rs_char_indices := t_char_indices e;
      rs_indices_lengths := t_indices_lengths e |}.
 Definition rs_ds_of (ds : datasource) : rs_data_source := {| rs_bidi_class := ds_class ds |}.
 
